@@ -124,6 +124,7 @@ type rcRunner struct {
 	log     []string
 	beh     map[string]byte
 	crashAt string
+	aborted bool // the runner itself returned an error
 }
 
 func (r *rcRunner) Run(cmd string, stream iostream.IOStream, task string, env []string) (shell.Result, error) {
@@ -135,6 +136,7 @@ func (r *rcRunner) Run(cmd string, stream iostream.IOStream, task string, env []
 	case 'F':
 		return shell.Result{Cmd: cmd, Status: 3}, nil
 	case 'A':
+		r.aborted = true
 		return shell.Result{}, fmt.Errorf("runner error in task %s", task)
 	}
 	return shell.Result{Cmd: cmd, Status: 0}, nil
@@ -334,6 +336,7 @@ func runcacheCmd(args []string) error {
 					res = "err new"
 					break
 				}
+				cacheBad := diskSummary() == "X"
 				rr := &rcRunner{beh: map[string]byte{}}
 				for i, n := range o.order {
 					rr.beh[rcName(n)] = o.beh[i]
@@ -386,15 +389,25 @@ func runcacheCmd(args []string) error {
 					crashFree = false
 					st.Outcomes["crash"]++
 				case rerr != nil:
+					// why the run stopped is read off the situation, not off the wording of the message: the runner failed, or the
+					// cache file was not a loadable document before the run, or a selected task names a file that is not there
 					kind := "other"
 					m := rerr.Error()
+					missingDep := false
+					for _, n := range o.order {
+						for _, l := range byName[n].lits {
+							if _, ok := content[l]; !ok {
+								missingDep = true
+							}
+						}
+					}
 					switch {
-					case strings.Contains(m, "Could not load spok cache"):
-						kind = "cache"
-					case strings.Contains(m, "Could not get hash result"):
-						kind = "hash"
-					case strings.Contains(m, "runner error"):
+					case rr.aborted:
 						kind = "abort"
+					case cacheBad:
+						kind = "cache"
+					case missingDep:
+						kind = "hash"
 					}
 					res = "err " + kind + " ex=" + exs
 					st.Outcomes["err "+kind]++
